@@ -87,6 +87,9 @@ func harnessPackageName(h HarnessSpec) string {
 }
 
 // runNative runs the replay test with the given replay files; returns one result line per file.
+// lastObserved holds, per replay file of the last runNative call, the VERIF-OBSERVE lines.
+var lastObserved [][]string
+
 func runNative(h HarnessSpec, args []int, realOv map[string]string, files []string, timeout time.Duration) ([]string, string) {
 	wd := workDir()
 	testPath := filepath.Join(wd, "zz_verif_replay_test.go")
@@ -99,20 +102,39 @@ func runNative(h HarnessSpec, args []int, realOv map[string]string, files []stri
 	ovb, _ := json.Marshal(map[string]any{"Replace": rep})
 	ovPath := filepath.Join(wd, "overlay.json")
 	os.WriteFile(ovPath, ovb, 0o644)
-	ctx, cancel := context.WithTimeout(context.Background(), timeout+90*time.Second)
+	ctx, cancel := context.WithTimeout(context.Background(), timeout+180*time.Second)
 	defer cancel()
-	cmd := exec.CommandContext(ctx, "go", "test", "-v", "-vet=off", "-count=1", "-tags", "verif", "-overlay", ovPath,
-		"-run", "^TestVerifReplay$", "-timeout", fmt.Sprintf("%ds", int(timeout.Seconds())), "./"+pkgRelDir(h.Pkg)+"/")
-	cmd.Dir = repoRoot
-	cmd.Env = append(os.Environ(), "VERIF_REPLAY_LIST="+strings.Join(files, ","))
+	// compile the test binary (go test -c never changes into the package directory, which
+	// matters for overlay-only harness packages), then run it
+	bin := filepath.Join(wd, "replay.test")
+	build := exec.CommandContext(ctx, "go", "test", "-c", "-vet=off", "-tags", "verif", "-overlay", ovPath, "-o", bin, "./"+pkgRelDir(h.Pkg)+"/")
+	build.Dir = repoRoot
 	var out bytes.Buffer
-	cmd.Stdout, cmd.Stderr = &out, &out
-	cmd.Run()
+	build.Stdout, build.Stderr = &out, &out
+	if err := build.Run(); err != nil {
+		out.WriteString("\n[build failed]\n")
+	} else {
+		cmd := exec.CommandContext(ctx, bin, "-test.v", "-test.run", "^TestVerifReplay$", "-test.timeout", fmt.Sprintf("%ds", int(timeout.Seconds())))
+		cmd.Dir = repoRoot
+		if st, err := os.Stat(filepath.Join(repoRoot, pkgRelDir(h.Pkg))); err == nil && st.IsDir() {
+			cmd.Dir = filepath.Join(repoRoot, pkgRelDir(h.Pkg))
+		}
+		cmd.Env = append(os.Environ(), "VERIF_REPLAY_LIST="+strings.Join(files, ","))
+		cmd.Stdout, cmd.Stderr = &out, &out
+		cmd.Run()
+	}
 	text := out.String()
 	var results []string
+	lastObserved = nil
+	var cur []string
 	for _, line := range strings.Split(text, "\n") {
+		if i := strings.Index(line, "VERIF-OBSERVE: "); i >= 0 {
+			cur = append(cur, line[i+len("VERIF-OBSERVE: "):])
+		}
 		if i := strings.Index(line, "VERIF-RESULT: "); i >= 0 {
 			results = append(results, strings.TrimSpace(line[i+len("VERIF-RESULT: "):]))
+			lastObserved = append(lastObserved, cur)
+			cur = nil
 		}
 	}
 	if len(results) < len(files) {
@@ -191,12 +213,28 @@ func nativeDifferential(prop string, h HarnessSpec, ts *TierSpec, realOv map[str
 	res, text := runNative(h, ts.Args, realOv, files, 120*time.Second)
 	if os.Getenv("VERIF_DEBUG") != "" {
 		fmt.Println(text)
+		for i, s := range samples {
+			fmt.Printf("engine sample %d observed: %q\n", i, s.Observed)
+		}
 	}
 	bad := 0
-	for _, r := range res {
-		if r != "ok" {
-			bad++
+	k := 0
+	for i, s := range samples {
+		if s.Outcome != "completed" {
+			continue
 		}
+		if k < len(res) {
+			if res[k] != "ok" {
+				bad++
+			} else if k < len(lastObserved) && len(s.Observed) > 0 && !symbolicObs(s.Observed) {
+				// concrete observations must agree exactly between engine and native run
+				if strings.Join(lastObserved[k], "\x00") != strings.Join(s.Observed, "\x00") {
+					bad++
+					fmt.Printf("  observation mismatch in sample %d of %s:\n    engine: %q\n    native: %q\n", i, h.Name, s.Observed, lastObserved[k])
+				}
+			}
+		}
+		k++
 	}
 	if len(res) < len(files) {
 		bad += len(files) - len(res)
@@ -234,4 +272,13 @@ func cmdReplay(args []string) int {
 	}
 	fmt.Printf("not reproduced: %v\n", res)
 	return 0
+}
+
+func symbolicObs(obs []string) bool {
+	for _, o := range obs {
+		if strings.Contains(o, "<sym>") || strings.Contains(o, "<symbolic>") || strings.Contains(o, "?") {
+			return true
+		}
+	}
+	return false
 }
